@@ -250,7 +250,11 @@ pub(crate) fn stub_session_handle_rx<const N: usize, const D: usize>(_s: &mut Se
 fn mac_rx_handoff(class_c: bool) {
     tape::init();
     let joined = tape::boolean();
-    let state = if joined { State::Joined(any_joined_session()) } else { State::Unjoined };
+    // not joined: never activated, or -- for the Class C hand-off -- an OTAA join in flight (the Class A hand-off of that state is
+    // Otaa::handle_rx, whose contract is in dev_otaa.rs)
+    let otaa = !joined && class_c && tape::boolean();
+    let state = if joined { State::Joined(any_joined_session()) } else if otaa {
+        State::Otaa(otaa::Otaa::new(NetworkCredentials::new(lorawan::keys::AppEui::from(tape::arr::<8>()), lorawan::keys::DevEui::from(tape::arr::<8>()), lorawan::keys::AppKey::from(tape::arr::<16>())))) } else { State::Unjoined };
     let mut m = any_mac(region::Configuration::new(region::Region::EU868), state);
     let old_cfg = m.configuration;
     let mut rx: RadioBuffer<64> = RadioBuffer::new();
@@ -267,7 +271,11 @@ fn mac_rx_handoff(class_c: bool) {
                 assert!(r.is_ok() && h.0 == 1 && h.1 && h.2 == rf.max_payload_len, "C08/C10 a frame heard while listening Class C goes to the session once, with MAC commands ignored and the window's size limit");
             } else {
                 assert!(r.is_err() && h.0 == 0 && m.configuration == old_cfg && !m.is_joined(), "C07 no session: a Class C frame changes nothing");
+                // C04 (modular soundness): the front-ends' conversions of a Class C response (ListenResponse::from, the discarded
+                // between_windows result inside join()) have panic arms for join responses; they rely on this
+                assert!(matches!(m.state, State::Otaa(_)) == otaa, "C04/C07 a frame heard on RXC while an OTAA join is in flight neither completes nor aborts the join: Mac::handle_rxc answers NotJoined and produces no join response");
             }
+            kani::cover!(otaa, "verif-maybe: join in flight");
         }
     } else {
         let _r = m.handle_rx::<64, 1>(&mut rx, &mut dl, snr, &rf);
@@ -286,7 +294,7 @@ fn mac_rx_handoff(class_c: bool) {
 #[kani::stub(crate::mac::session::Session::handle_rx, stub_session_handle_rx)]
 #[kani::unwind(18)]
 fn c07_mac_handle_rx_handoff() { mac_rx_handoff(false) }
-// @verif props=C04,C07,C10 obligation=Mac::handle_rxc.handoff label=proved-complete tier=quick bound="joined (any session) or unjoined; Session::handle_rx contract-stubbed"
+// @verif props=C04,C07,C10 obligation=Mac::handle_rxc.handoff label=proved-complete tier=quick bound="joined (any session), unjoined, or OTAA join in flight; Session::handle_rx contract-stubbed"
 #[kani::proof]
 #[kani::stub(crate::mac::session::Session::handle_rx, stub_session_handle_rx)]
 #[kani::unwind(18)]
